@@ -865,6 +865,9 @@ def compare_extreme(cases, outs):
     return broken, off
 
 
+TIME_ARG_FUNCS = ["sin", "cos", "tan", "tanh", "sinh", "cosh", "exp", "arctan", "sigmoid"]
+
+
 def gen_support_case(rng):
     names = rng.sample(["r", "rr", "k", "weight", "x_v1", "tau"], 3)
     a, b, c = names
@@ -875,12 +878,23 @@ def gen_support_case(rng):
                     f"sinh({a}*{b}) - sin({c})", f"tanh({a}*{b})*tan({c}/4)", f"cos({a})/cosh({b}*{c})", f"cos(2*cosh({a})) + sin({b}) - sinh({b})",
                     # a right-hand side that is a pure number but not a float literal
                     "1/(2*pi)", "E^2/4 - 0.5", "pi/4 - 1/3", "sqrt(2)/2", "exp(1)/3 + 1/7", "2/3"])
+    timearg = False
+    if rng.random() < 0.3:
+        # a function of the language applied to `t - c` (t is a declared constant of the operator, 0 at every point): textually the delay
+        # notation x(t-d), which the parser must leave alone for function names (seed C05-m8)
+        f = rng.choice(TIME_ARG_FUNCS)
+        cst = rng.choice(["0.5", "0.25", "2", a])
+        s = rng.choice([f"{f}(t - {cst})*{b} + {c}", f"{f}(t-{cst}) - {b}", f"{c}*{f}( t - {cst} )", f"{f}(t - {cst}) + {f}(t - {b})"])
+        timearg = True
     if not any(n in s for n in names):
         return dict(kind="support", lhs="x", eq=rng.choice([f"x' = {s}", f"d/dt * x = {s}"]), s=s, pts=[{"x": "0"}] * 4, expect_err=None)
     expect_err = "NameError" if "sigmoid(0.5)" in s and "D151" not in FIXED else None
     pts = []
     for _ in range(4):
-        p = {nm: str(Fr(rng.randint(-12, 12), 8)) for nm in names}; p["x"] = "0"; pts.append(p)
+        p = {nm: str(Fr(rng.randint(-12, 12), 8)) for nm in names}; p["x"] = "0"
+        if timearg:
+            p["t"] = "0"
+        pts.append(p)
     return dict(kind="support", lhs="x", eq=f"x' = {s}", s=s, pts=pts, expect_err=expect_err)
 
 
@@ -1147,13 +1161,16 @@ def coq_reading(ctx, strings, tag):
 def compare_support(ctx, cases, outs, tag):
     reads = coq_reading(ctx, [c["s"] for c in cases], tag)
     ns = dict(sin=math.sin, cos=math.cos, exp=math.exp, sqrt=math.sqrt, tanh=math.tanh, pi=math.pi, E=math.e,
-              sigmoid=lambda x: 1. / (1. + math.exp(-x)), sinh=math.sinh, cosh=math.cosh, tan=math.tan)
+              sigmoid=lambda x: 1. / (1. + math.exp(-x)), sinh=math.sinh, cosh=math.cosh, tan=math.tan, arctan=math.atan, t=0.0)
     off = []
     for i, (c, o, rd) in enumerate(zip(cases, outs, reads)):
         if rd is None or isinstance(o, dict):
             off.append(i); continue
         for p in range(4):
-            ref = eval(rd, {"__builtins__": {}}, dict(ns, **_vals(c["pts"][p])))
+            try:
+                ref = eval(rd, {"__builtins__": {}}, dict(ns, **_vals(c["pts"][p])))
+            except Exception:
+                off.append(i); break
             if abs(ref - o[p]) > 1e-12 * max(1.0, abs(ref)):
                 off.append(i); break
     return off
